@@ -27,6 +27,8 @@ def run(ctx):
         # keep away from: a verdict must stick to the candidate it was computed for
         refine.refine_batch(ctx, ctx.size(30, 300), salt=41, force=_multi_far, pid=PID, name="trace-refinement(FarEnough over several candidates per parent)"),
         runs.monitor_batch(ctx, PID, ctx.size(50, 500), salt=43, name="traced-runs-monitor-C09(FarEnough over several candidates per parent)", force=_multi_far),
+        # a box of its own per level: a deme is sprouted at the very point the filters accepted
+        runs.level_boxes_batch(ctx, PID, ctx.size(30, 300), 51),
     ]
 
 
